@@ -412,10 +412,19 @@ def boundary_case(ctx, rng, idx):
                           case.features())
         return
     ctx.count('boundary_evaluated')
-    if v != -np.inf and not (np.isnan(v)):
+    try:
+        s1 = case.obj.evaluateS1(x)[0]
+    except Exception as e:      # noqa
+        ctx.violation_exc('constructible_model_is_usable', e,
+                          {'case': case.describe(), 'x': x,
+                           'call': 'evaluateS1'}, case.features())
+        return
+    # (centred and non-centred models alike: a negative scale is outside
+    # the support; value and S1 score agree on it)
+    if v != -np.inf or s1 != -np.inf:
         ctx.violation('negative_scale_scores_minus_inf', 'boundary_value',
-                      {'value': v, 'position': k, 'case': case.describe()},
-                      case.features())
+                      {'value': v, 's1 score': s1, 'position': k,
+                       'case': case.describe()}, case.features())
 
 
 N_ENUM = None
